@@ -321,7 +321,7 @@ K_NORMAL, K_STAKE, K_DOSC, K_SWAP, K_DEP, K_WD, K_FAUCET = 0x00, 0x10, 0x50, 0x5
 
 
 def parse_oracle_items(tok):
-    d = {"f": {}, "g": set(), "l": {}, "r": {}}
+    d = {"f": {}, "g": set(), "l": {}, "r": {}, "p": {}}
     if tok == "-":
         return d
     for it in tok.split(","):
@@ -334,6 +334,8 @@ def parse_oracle_items(tok):
             d["l"][p[1]] = p[2]
         elif p[0] == "r":
             d["r"][int(p[1])] = p[2]
+        elif p[0] == "p" and len(p) == 7:
+            d["p"][p[5]] = p[6]          # tx hash -> verdict
     return d
 
 
@@ -341,6 +343,7 @@ def walk(ops, impl):
     """yields (i, kind, tokens, pre_state_dump, post_state_dump_or_None, status, txs, oracle_items)"""
     states = {}
     txdb = {}
+    HIST.clear()
     for i, (o, a) in enumerate(zip(ops, impl)):
         t = o.split(" ")
         kind = t[0]
@@ -352,11 +355,23 @@ def walk(ops, impl):
         if kind in ("fab", "genesis"):
             if d is not None:
                 states[t[1]] = d
+                hs = {}
+                if kind == "fab" and t[10] != "-":
+                    for e in t[10].split(";"):
+                        f = e.split("@")[0].split(":")
+                        hs[int(f[2])] = int(f[8])
+                HIST[t[1]] = hs
             yield i, kind, t, None, d, st, [], {}
         elif kind in ("next", "seal", "restore"):
             p = states.get(t[1])
             if d is not None:
                 states[t[2]] = d
+                hs = dict(HIST.get(t[1], {}))
+                if kind == "next" and pre:
+                    f = pre[0].split(":")
+                    if len(f) == 11:
+                        hs[int(f[2])] = int(f[8])
+                HIST[t[2]] = hs
             orc = parse_oracle_items(t[4]) if kind == "seal" else {}
             blocktxs = [txdb.get(h) for h in (p or {}).get("txs", [])] if kind == "seal" else []
             yield i, kind, t, p, d, st, blocktxs, orc
@@ -368,6 +383,7 @@ def walk(ops, impl):
                     txdb[x["hash"]] = x
             if d is not None:
                 states[t[2]] = d
+                HIST[t[2]] = HIST.get(t[1], {})
             yield i, kind, t, p, d, st, txs, parse_oracle_items(t[4])
         elif kind == "block":
             p = states.get(t[1])
@@ -378,6 +394,67 @@ def walk(ops, impl):
             if d is not None:
                 states[t[2]] = d
             yield i, kind, t, p, d, st, txs, parse_oracle_items(t[9])
+
+
+HIST = {}
+_INFL = [1000000]
+
+
+def microergs(h):
+    while len(_INFL) <= h:
+        last = _INFL[-1]
+        _INFL.append(max(last + 1, last + last // 2000000))
+    return _INFL[h]
+
+
+def oracle_mint(ops, impl, model):
+    """C18: an accepted ERG mint creates no more ERG than the inflated reward computed from the measured speed and the
+    previous block's DOSC speed; the recorded speed is the maximum of its old value and the demonstrated speeds"""
+    out = []
+    for i, kind, t, pre, post, st, txs, orc in walk(ops, impl):
+        if kind != "batch" or pre is None or post is None or any(x is None for x in txs):
+            continue
+        h = int(pre["h"])
+        hist = HIST.get(t[1], {})
+        c0 = coins_dict(pre)
+        created = {}
+        for tx in txs:
+            for k, o in enumerate(tx["outputs"]):
+                created["%s:%d" % (tx["hash"], k)] = h
+        speeds = [int(pre["ds"])]
+        for tx in txs:
+            if tx["kind"] != K_DOSC or not tx["inputs"]:
+                continue
+            cid = tx["inputs"][0]
+            ch = created.get(cid, c0[cid]["height"] if cid in c0 else None)
+            verdict = orc["p"].get(tx["hash"])
+            if ch is None or tx["pow"] == "-":
+                out.append({"line": i, "op": " ".join(t)[:2000], "opkind": "batch", "detail": "accepted an ERG mint without a decodable proof / resolvable coin"})
+                continue
+            d = int(tx["pow"].split(":")[0])
+            if verdict not in ("legacy", "tip910"):
+                out.append({"line": i, "op": " ".join(t)[:2000], "opkind": "batch", "detail": "accepted an ERG mint whose proof does not verify for the puzzle of (header at coin height %d, first input): verdict %s" % (ch, verdict)})
+                continue
+            if int(pre["net"]) == 255 and h - ch < 100:
+                out.append({"line": i, "op": " ".join(t)[:2000], "opkind": "batch", "detail": "accepted a mainnet ERG mint of a coin only %d blocks old" % (h - ch)})
+            if h - ch <= 0 or (h - 1) not in hist:
+                continue
+            tip910 = verdict == "tip910"
+            speed = (100 if tip910 else 1) * 2 ** d // (h - ch)
+            speeds.append(speed)
+            work = min(2 ** d * 100, 2 ** 128 - 1) if tip910 else 2 ** d
+            prev = hist[h - 1]
+            if prev == 0:
+                continue
+            reward = min(work * speed * 1000000 // (prev * prev * 2880), 2 ** 128 - 1)
+            bound = microergs(h) * reward // 1000000
+            erg = sum(o["value"] for o in tx["outputs"] if o["denom"] == ERG)
+            if erg > bound:
+                out.append({"line": i, "op": " ".join(t)[:2000], "opkind": "batch",
+                            "detail": "ERG mint creates %d micro-ERG, the reward bound is %d (difficulty %d, age %d, previous speed %d, %s hash)" % (erg, bound, d, h - ch, prev, verdict)})
+        if int(post["ds"]) != max(speeds):
+            out.append({"line": i, "op": " ".join(t)[:2000], "opkind": "batch", "detail": "DOSC speed after the batch is %s, expected max(old, demonstrated) = %d" % (post["ds"], max(speeds))})
+    return out
 
 
 def coins_dict(d):
@@ -732,6 +809,34 @@ def oracle_settlement(ops, impl, model):
                 if old is None or {old["denom"], new["denom"]} != {left, right}:
                     out.append({"line": i, "op": " ".join(t)[:500], "opkind": "seal",
                                 "detail": "swap output moved from denomination %s to %s, pool sides are %s / %s" % (old and old["denom"][:12], new["denom"][:12], left[:12], right[:12])})
+        # (1b) reserves move by exactly the amounts taken from or paid into coins (up to the rounding dust of the
+        # pro-rata split, at most one unit per request), for every pool that is not touched by pegging / subsidy
+        reqs_by_pool = collections.defaultdict(list)
+        for tx in txhashes.values():
+            key = canonical_pool_key(tx["data"])
+            if key and tx["kind"] in (K_SWAP, K_DEP, K_WD):
+                reqs_by_pool[key].append(tx)
+        pp0 = {e.split("=")[0]: [int(x) for x in e.split("=")[1].split(":")] for e in pre.get("pools", [])}
+        pp1 = {e.split("=")[0]: [int(x) for x in e.split("=")[1].split(":")] for e in post.get("pools", [])}
+        for (kb, left, right), rtx in reqs_by_pool.items():
+            if kb in ("73", ZERO + "016401" + "73"):
+                continue
+            r0 = pp0.get(kb, [0, 0, 0, 0])
+            r1 = pp1.get(kb)
+            if r1 is None:
+                continue
+            for side, den in ((0, left), (1, right)):
+                delta_coins = 0
+                for tx in rtx:
+                    for idx in (0, 1):
+                        cid = "%s:%d" % (tx["hash"], idx)
+                        a0, a1 = c0.get(cid), c1.get(cid)
+                        delta_coins += (a1["value"] if a1 and a1["denom"] == den else 0) - (a0["value"] if a0 and a0["denom"] == den else 0)
+                delta_res = r1[side] - r0[side]
+                if not (-delta_coins - len(rtx) <= delta_res <= -delta_coins):
+                    leg = legacy(int(pre["net"]), h, 978392) and any(x["kind"] == K_DEP for x in rtx)
+                    out.append({"line": i, "op": " ".join(t)[:500], "opkind": "seal", "legacy": "deposit-window" if leg else "no",
+                                "detail": "sealing grew: pool %s side %s reserve moved by %d while coins of that denomination moved by %d (%d requests)" % (kb[-8:], den[:8], delta_res, delta_coins, len(rtx))})
         # (2) product of pools that only saw swaps
         p0 = {e.split("=")[0]: [int(x) for x in e.split("=")[1].split(":")] for e in pre.get("pools", [])}
         p1 = {e.split("=")[0]: [int(x) for x in e.split("=")[1].split(":")] for e in post.get("pools", [])}
@@ -748,6 +853,7 @@ def oracle_settlement(ops, impl, model):
 
 
 ORACLES.update({
+    "mint": oracle_mint,
     "settlement": oracle_settlement,
     "utxo_reference": oracle_utxo_reference,
     "conservation": oracle_conservation,
